@@ -37,6 +37,29 @@ Proof. exact bencode_stream. Qed.
 Theorem C19_bencode_encode_is_reference : forall v, wf v = true -> encode v = ref_encode v.
 Proof. exact encode_ref. Qed.
 
+(** the numerals [encode] prints are canonical BEP-3 numerals ("0", or an optional "-", a
+    digit 1-9 and more digits) denoting the integer *)
+Theorem C19_bencode_numeral_canonical : forall z,
+  canonical_numeral (dec_Z z) = true /\ numeral_value (dec_Z z) = z.
+Proof. exact numeral_canonical. Qed.
+
+(** dict entries in any order with pairwise distinct keys ([dkeys]): what comes back is the
+    key-sorted form; in particular for what Lisp hands to [encode] (strings, keywords and
+    symbols become the UTF-8 bytes of their text, also as map keys) *)
+Theorem C19_bencode_roundtrip_any_order : forall v r,
+  dkeys v = true -> decode (encode v ++ r) = DVal (norm v) r.
+Proof. exact bencode_roundtrip_any_order. Qed.
+
+Theorem C19_bencode_coercion : forall x r,
+  dkeys (inj x) = true -> decode (encode_l x ++ r) = DVal (norm (inj x)) r.
+Proof. exact bencode_coercion. Qed.
+
+Example C19_bencode_coercion_nonvacuous :
+  let x := LMap [(LKKw None [111; 112], LStr [233]); (LKStr [105; 100], LVec [LInt 1; LSym (Some [110]) [120]])] in
+  dkeys (inj x) = true /\
+  norm (inj x) = BDict [([105; 100], BList [BInt 1; BStr [110; 47; 120]]); ([111; 112], BStr [195; 169])].
+Proof. exact (conj eq_refl eq_refl). Qed.
+
 (** the premises are met by a nested value and a two-message stream cut inside the second *)
 Example C19_bencode_nonvacuous :
   let m1 := BDict [([97], BList [BInt (-7); BStr []]); ([98], BStr [101])] in
@@ -101,6 +124,10 @@ Print Assumptions C19_bencode_roundtrip.
 Print Assumptions C19_bencode_prefix_free.
 Print Assumptions C19_bencode_stream.
 Print Assumptions C19_bencode_encode_is_reference.
+Print Assumptions C19_bencode_numeral_canonical.
+Print Assumptions C19_bencode_roundtrip_any_order.
+Print Assumptions C19_bencode_coercion.
+Print Assumptions C19_bencode_coercion_nonvacuous.
 Print Assumptions C19_bencode_nonvacuous.
 Print Assumptions C19_edn_string_escape_roundtrip.
 Print Assumptions C19_edn_roundtrip_partial.
